@@ -64,6 +64,49 @@ def e2e_jobs(tier, rng):
     return jobs
 
 
+def crate_runs(v):
+    """Diagnostics are per file: a skipped region of one file of a crate run says nothing about
+    the lines of another.  lib.rs declares two modules; one holds a #[rustfmt::skip] item over
+    lines 2..5, the other an unbreakable too-wide line at line p.  Through the binary."""
+    core.build(harness=False)
+    rustfmt = core.bin_path("rustfmt")
+    wide = "a" * 120
+    n = 0
+    with Scratch("c07c") as sc:
+        for skipper, other in (("alpha", "beta"), ("beta", "alpha")):
+            for p in range(1, 8):
+                for kind in ("wide", "trail"):
+                    d = sc / f"{skipper}-{p}-{kind}"
+                    d.mkdir()
+                    (d / "lib.rs").write_text("mod alpha;\nmod beta;\n")
+                    (d / f"{skipper}.rs").write_text(
+                        "fn a() {}\n#[rustfmt::skip]\nfn  skipped( ) {\n    let  x=1;\n}\nfn b() {}\n")
+                    lines = [f"fn f{i}() {{}}" for i in range(1, 9)]
+                    if kind == "wide":
+                        lines[p - 1] = f"fn {wide}() {{}}"
+                    else:
+                        lines[p - 1] = "const S: &str = \"x   \n\";"
+                    (d / f"{other}.rs").write_text("\n".join(lines) + "\n")
+                    r = subprocess.run([rustfmt, "--check", "--config",
+                                        "error_on_line_overflow=true,error_on_unformatted=true",
+                                        str(d / "lib.rs")], cwd=d, env=core.run_env({"HOME": str(d)}),
+                                       capture_output=True, text=True, timeout=60)
+                    n += 1
+                    got = set()
+                    for ln in r.stderr.split("\n"):
+                        ln = ln.strip()
+                        if ln.startswith("-->"):
+                            parts = ln[3:].strip().rsplit(":", 3)
+                            got.add((parts[0].rsplit("/", 1)[-1], int(parts[1])))
+                    want = {(f"{other}.rs", p)}
+                    if got != want or r.returncode != 1:
+                        v.violation(f"crate:{skipper}:{p}:{kind}",
+                                    f"crate run (skip item in {skipper}.rs lines 2-5, {kind} line {p} of "
+                                    f"{other}.rs): reported {sorted(got)}, expected {sorted(want)}, exit "
+                                    f"{r.returncode}", {"stderr": r.stderr[-1500:], "p": p, "kind": kind})
+    return n
+
+
 def run(tier, seed, replay=None):
     v = Verdict("C07", tier, seed)
     rng = random.Random(seed)
@@ -135,6 +178,7 @@ def run(tier, seed, replay=None):
                              "entries": o.get("entries"), "model": f})
             elif "AsModel" in f["fails"]:
                 v.drift += 1
+    n_crate = crate_runs(v)
     for rec in urecs[:2]:
         v.sample({"text": rec["text"], "cfg": rec["cfg"], "reports": rec["reports"]})
     if emeta:
@@ -152,7 +196,8 @@ def run(tier, seed, replay=None):
                    "blanks trapped in strings/comments, the same inside #[rustfmt::skip] items "
                    "after 0..4 blank lines) through the whole formatter, output classified by "
                    "rustc_lexer; distinct_nontrivial = distinct inputs with at least one report",
-           "unit_records": n_unit, "e2e_records": len(erecs), "obs_states": ostates,
+           "unit_records": n_unit, "e2e_records": len(erecs), "crate_runs": n_crate,
+           "obs_states": ostates,
            "exhaustive": False}
     return v.finish("model_checking", cov, [
         "rustc_lexer classifies the output's characters (string / comment / code)",
